@@ -1,0 +1,71 @@
+//go:build verif
+
+// Contracts for property C16 (decoders are total) in the timed B-tree, checked by /verif (govc).
+// This file is only compiled with -tags verif; it adds no behaviour to the package.
+package tbtree
+
+// The only caller of deserialize (OpenWith, tbtree.go:643) passes b[:] of a local [cLogEntrySize]byte.
+//@ func (*cLogEntry).deserialize
+//@   requires size: len(b) >= cLogEntrySize
+//@   assigns e, b
+//@   inline
+
+// Node readers. r is always the result of appendable.NewReaderFrom(t.nLog, off, t.maxNodeSize) (readNodeAt), which
+// satisfies appendable.spec_readerWF. The bytes delivered by the reader are unconstrained (arbitrary file content).
+// "valid value" (C16) for a node = the representation facts the node-local code relies on (see the C10 file):
+// innerWF: len(nodes) >= 1, every child non-nil; leafWF: every value non-nil with >= 1 timed value.
+// Stated and proved here: result non-nil and fresh, t set, every child / value non-nil (quantified invariants), and
+// `nonempty` len(nodes) >= 1, which FAILS today: childCount == 0 is accepted and innerNode.get then indexes nodes[0].
+// Not stated: len(values[k].timedValues) >= 1 (true by construction; the quantified invariant over the heap contents
+// of the elements times out in inv-keep).
+// frame:...:loop1 of the two loops is not dischargeable: the loop havocs the fresh node (its _ts/_minOff are written)
+// including the slice header n.nodes / l.values, and the spec language cannot say "still the slice it was at loop entry"
+// for a field of an object that did not exist at function entry (old() does not apply, fresh() is ensures-only), so the
+// store n.nodes[c] = ... cannot be attributed to a modified object.
+
+//@ func (*TBtree).readNodeRefFrom
+//@   requires r != nil && appendable.spec_readerWF(r)
+//@   ensures wf: appendable.spec_readerWF(r)
+//@   ensures samebuf: r.data == old(r.data)
+//@   ensures nonnil: r1 == nil ==> r0 != nil
+//@   ensures fresh: fresh(r0)
+//@   assigns r, r.data
+
+//@ func (*TBtree).readInnerNodeFrom
+//@   requires r != nil && appendable.spec_readerWF(r)
+//@   ensures wf: appendable.spec_readerWF(r)
+//@   ensures samebuf: r.data == old(r.data)
+//@   ensures nonnil: r1 == nil ==> r0 != nil && r0.t == t
+//@   ensures fresh: fresh(r0)
+//@   ensures nonempty: r1 == nil ==> len(r0.nodes) >= 1
+//@   ensures children: r1 == nil ==> forall(k, 0, len(r0.nodes), r0.nodes[k] != nil)
+//@   assigns r, r.data
+//@   loop 1 invariant wf: appendable.spec_readerWF(r) && r.data == old(r.data)
+//@   loop 1 invariant shape: 0 <= c && n != nil && n.t == t && len(n.nodes) == int(childCount)
+//@   loop 1 invariant sep: !sameobj(n.nodes, r.data) && !sameobj(n.nodes, r) && !sameobj(n.nodes, n) && !sameobj(n, r) && !sameobj(n, r.data)
+//@   loop 1 invariant children: forall(k, 0, c, n.nodes[k] != nil)
+//@   loop 1 decreases int(childCount) - c
+//@   loop 1 assigns r, r.data, n, n.nodes
+
+//@ func (*TBtree).readLeafNodeFrom
+//@   requires r != nil && appendable.spec_readerWF(r)
+//@   ensures wf: appendable.spec_readerWF(r)
+//@   ensures samebuf: r.data == old(r.data)
+//@   ensures nonnil: r1 == nil ==> r0 != nil && r0.t == t
+//@   ensures fresh: fresh(r0)
+//@   ensures values: r1 == nil ==> forall(k, 0, len(r0.values), r0.values[k] != nil)
+//@   assigns r, r.data
+//@   loop 1 invariant wf: appendable.spec_readerWF(r) && r.data == old(r.data)
+//@   loop 1 invariant sep: !sameobj(l.values, r.data) && !sameobj(l.values, r) && !sameobj(l.values, l) && !sameobj(l, r) && !sameobj(l, r.data)
+//@   loop 1 invariant values: forall(k, 0, c, l.values[k] != nil)
+//@   loop 1 invariant shape: 0 <= c && l != nil && l.t == t && len(l.values) == int(valueCount)
+//@   loop 1 decreases int(valueCount) - c
+//@   loop 1 assigns r, r.data, l, l.values
+
+//@ func (*TBtree).readNodeFrom
+//@   requires r != nil && appendable.spec_readerWF(r)
+//@   ensures wf: appendable.spec_readerWF(r)
+//@   ensures samebuf: r.data == old(r.data)
+//@   ensures nonnil: r1 == nil ==> r0 != nil
+//@   ensures fresh: fresh(r0)
+//@   assigns r, r.data
